@@ -31,9 +31,7 @@ def isPreserve (n : Str) : Bool := preserveTags.contains n
 /-! ### Python string helpers -/
 
 /-- `str.isspace()`: what `strip()`, `lstrip()`, `rstrip()` without argument remove. -/
-def pyWs (c : Char) : Bool :=
-  isWs c || c.toNat = 0x85 || c.toNat = 0xa0 || c.toNat = 0x1680 || (0x2000 ≤ c.toNat && c.toNat ≤ 0x200a)
-  || c.toNat = 0x2028 || c.toNat = 0x2029 || c.toNat = 0x202f || c.toNat = 0x205f || c.toNat = 0x3000
+def pyWs (c : Char) : Bool := isWs c
 
 def rdropWhile (p : Char → Bool) (s : Str) : Str := (s.reverse.dropWhile p).reverse
 
